@@ -123,6 +123,9 @@ def build_client_scenarios(g, tier, rnd):
         # channel up and handing the answer over - cancel / Close (the race a late answer opens)
         for n in ((1, 2, 3) if tier == "thorough" else (rnd.choice((1, 2, 3)),)):
             scen.append({"client": client, "fault": "clientclose", "at": "b0", "model_at": "b0", "ncalls": n, "ctx": "deadline"})
+        if client == "legacy":
+            # Close() while the handshake is still waiting for the stream's response headers
+            scen.append({"client": client, "fault": "clientclose", "at": "connect-stall", "model_at": "b0", "ncalls": 1, "ctx": "deadline"})
         if client in ("legacy", "stdio"):
             scen.append({"client": client, "fault": "race-cancel", "model_fault": "stall", "at": "done", "model_at": "done", "ncalls": 1, "ctx": "race"})
             scen.append({"client": client, "fault": "race-close", "model_fault": "clientclose", "at": "done", "model_at": "done", "ncalls": 1, "ctx": "race"})
